@@ -37,8 +37,10 @@ def rand_float(r):
     if not fr and e is None:
         fr = "0"
     s = ip + ("." + fr if fr else "") + ("e%d" % e if e is not None else "")
-    sig = int(ip + fr)
-    ex = (e or 0) - len(fr)
+    # the scanner does not take trailing zeros of the fraction into the significand: 224.520e25 is 22452 x 10^23
+    eff = fr.rstrip("0")
+    sig = int(ip + eff)
+    ex = (e or 0) - len(eff)
     if not (-22 <= ex <= 22):
         return r.choice(FLOATS)
     return (s, sig, ex)
